@@ -418,6 +418,8 @@ func checkC04(p *Prog, res *Result, tier string) {
 	res.rule("C04-R1", "every path from a revision allocation reports the allocated revision to the event sink or returns it in the allocator result position (no leak, no constant/other value in its place)", 10)
 	res.rule("C04-R2", "in the event sink every path with a non-zero revision reaches the slot store (or aborts)", 1)
 	res.rule("C04-R3", "in the sequencer every path from a consumed slot to the next slot load passes through TSO.Commit of that slot's revision and through the store that clears the slot", 2)
+	res.rule("C04-R13", "a wake-up of the sequencer (or of any goroutine that sleeps on a channel field) is not lost: a send that does not block (select with default) goes to a buffered channel, or its receiver does not wait with a plain receive", 1)
+	res.rule("C04-R12", "an allocated revision is reported to the event sink at most once: no path leads from a sink call to another sink call with the same revision value", 4)
 	res.rule("C04-R4", "at every sink call the revision comes from an allocator call that already returned, and valid is exactly (err == nil) for the error of that same call", 4)
 	res.rule("C04-R7", "the revision reads are served at never moves backwards: the committed counter is written only by Init and by a guarded raise in Commit (C02-R1) - a late value (a follower's sync overtaken by the node's own start as leader) cannot push it below acknowledged writes", 2)
 	res.rule("C04-R6", "neither the sequencer nor the hub it feeds can block itself: no lock is acquired while the same goroutine holds it (C19-R5)", 1)
@@ -577,6 +579,8 @@ func checkC04(p *Prog, res *Result, tier string) {
 
 	// R3: sequencer progress
 	checkSequencerProgress(p, r, res)
+	checkSinkAtMostOnce(p, r, res, "C04-R12")
+	checkWakeupsNotLost(p, res, "C04-R13")
 
 	// R4: report after commit with the right validity
 	nSink := 0
